@@ -42,15 +42,18 @@ def _raise_nodes(filename):
 
 
 def _raised_class_name(node):
+    """The exception CLASS a raise statement names, if it names a builtin exception class at all
+    (`raise ValueError(...)`); None for `raise err`, `raise helper(...)`, bare `raise`."""
+    import builtins
     exc = node.exc
     if exc is None:
         return None
     if isinstance(exc, ast.Call):
         exc = exc.func
-    if isinstance(exc, ast.Name):
-        return exc.id
-    if isinstance(exc, ast.Attribute):
-        return exc.attr
+    name = exc.id if isinstance(exc, ast.Name) else exc.attr if isinstance(exc, ast.Attribute) else None
+    obj = getattr(builtins, name, None) if name else None
+    if isinstance(obj, type) and issubclass(obj, BaseException):
+        return name
     return None
 
 
@@ -78,7 +81,7 @@ def is_refusal(exc):
         if node.lineno <= lineno <= getattr(node, "end_lineno", node.lineno):
             name = _raised_class_name(node)
             if name is None:
-                return True   # bare re-raise
+                return True   # bare re-raise, `raise err`, `raise helper(...)`: a deliberate raise
             # `raise ValueError(f"...{'__'.join(path)}")` that surfaces as a TypeError raised while
             # the message was being built sits on a raise line too: the classes must agree.
             return type(exc).__name__ == name
@@ -209,11 +212,18 @@ def write_evidence(pid, tier, seed, level, coverage, assumptions, wall, violatio
     return path
 
 
-def finish(pid, tier, seed, level, coverage, assumptions, t0, results, extra_violations=()):
-    """Common tail of every check: tool errors -> exit 2; violations -> known finding or VIOLATION;
-    evidence is written in every case."""
+def finish(pid, tier, seed, level, coverage, assumptions, t0, results, extra_violations=(), min_explored=None):
+    """Common tail of every check: violations -> known finding or VIOLATION (exit 1); otherwise tool
+    errors -> exit 2; evidence is written in every case.  ``min_explored``: vacuity guard - the number
+    of configurations that must have been explored (not refused); fewer is a tool error, because a
+    library that refuses (almost) everything would otherwise pass unexamined."""
     known = load_known()
     tool_errors = [r for r in results if r.get("tool_error")]
+    if min_explored is not None:
+        explored = sum(1 for r in results if not r.get("refused") and not r.get("tool_error"))
+        if explored < min_explored:
+            tool_errors.append(dict(cfg=None, tool_error=f"vacuity guard: only {explored} configurations were explored "
+                                                          f"(at least {min_explored} expected); too many were refused"))
     viols = []
     for r in results:
         for v in r.get("violations", []) or ([] if r.get("violation") is None else [r["violation"]]):
@@ -239,7 +249,8 @@ def finish(pid, tier, seed, level, coverage, assumptions, t0, results, extra_vio
         for r in tool_errors[:5]:
             print(f"TOOL-ERROR property={pid} cfg={r.get('cfg')!r}\n{r['tool_error']}", file=sys.stderr)
         print(f"TOOL-ERROR property={pid}: {len(tool_errors)} configuration(s) could not be decided")
-        return 2
+        if not new:
+            return 2
     if new:
         # one replay file per distinct signature (first witness of each), capped
         done = set()
